@@ -237,6 +237,42 @@ func c17Extra(tier string, seed int64) *runner.ExtraResult {
 		tot.rows += c.rows
 	}
 
+	// arguments changed by the caller after construction: Labels(m), m mutated to every other map, compared with a filter
+	// built from the original contents - whenever they compare equal they must still accept the same objects
+	var mutatedPairs int64
+	{
+		lms := labelMapsE([]string{"1", "2"})
+		for i, m := range lms {
+			for j, m2 := range lms {
+				if i == j || len(m) == 0 {
+					continue
+				}
+				arg := copyMap(m)
+				f1 := filter.Labels(arg)
+				for k := range arg {
+					delete(arg, k)
+				}
+				for k, v := range m2 {
+					arg[k] = v
+				}
+				f2 := filter.Labels(copyMap(m))
+				mutatedPairs++
+				if !filter.FiltersEqual(f1, f2) && !filter.FiltersEqual(f2, f1) {
+					continue
+				}
+				b1, b2 := acceptBV(f1, objs), acceptBV(f2, objs)
+				if d := b1.firstDiff(b2); d >= 0 {
+					mm, mm2, o, a1 := mapStr(m), mapStr(m2), objs[d], b1.get(d)
+					fs.add("c17/equal-sound", "Labels built from a map the caller changed afterwards compares equal to a fresh one but accepts differently", int64(T)*int64(T)+int64(i*len(lms)+j),
+						func() string {
+							return fmt.Sprintf("f1=Labels(m) with m=%s, then the caller set m=%s; f2=Labels%s: FiltersEqual=true but f1.Accept=%v f2.Accept=%v on %s", mm, mm2, mm, a1, !a1, descObj(o))
+						})
+				}
+			}
+		}
+	}
+	cov["label_filters_whose_map_was_mutated_after_construction"] = mutatedPairs
+
 	// reflexivity on independently rebuilt values
 	var rebuilt, rebuildChecks int64
 	parFor(T, func(_, i int) {
